@@ -8,7 +8,7 @@ use serde_json::{json, Value};
 use std::collections::{BTreeMap, BTreeSet};
 use std::io::Write;
 
-pub const CLAIMED: [&str; 15] = ["C01", "C04", "C05", "C06", "C07", "C09", "C10", "C15", "C19", "C20", "C11", "C17", "C08", "C14", "C18"];
+pub const CLAIMED: [&str; 17] = ["C01", "C04", "C05", "C06", "C07", "C09", "C10", "C15", "C19", "C20", "C11", "C17", "C08", "C14", "C18", "C02", "C03"];
 
 pub fn verif_dir() -> String {
     std::env::var("VERIF_DIR").unwrap_or_else(|_| "/verif".to_string())
@@ -323,6 +323,11 @@ pub fn check(prop: &str, tier: &str) -> i32 {
         let st = std::process::Command::new(&exe)
             .args(["one", prop, &seed.to_string(), &idx.to_string()])
             .status();
+        let code = st.as_ref().ok().and_then(|s| s.code());
+        if code == Some(101) || code == Some(2) {
+            eprintln!("HARNESS-ERROR: the harness itself panicked on index {} (exit {:?}); not a property violation", idx, code);
+            return 2;
+        }
         let died = !st.map(|s| s.success() || s.code() == Some(1)).unwrap_or(false);
         if died {
             if prop == "C02" {
@@ -363,7 +368,14 @@ pub fn check(prop: &str, tier: &str) -> i32 {
         }
         if let Some((idx, detail)) = unknown.first() {
             nviol += unknown.len() as u64;
-            let sc = profiles::generate(prop, seed, *idx);
+            let mut sc = profiles::generate(prop, seed, *idx);
+            // multi-run properties: continue with the concrete faulted scenario that violated
+            let ev0 = oracle::evaluate(prop, &sc);
+            if let Some(hit) = ev0.sweep_hit {
+                if oracle::evaluate(prop, &hit).violations.iter().any(|x| x.oracle == o) {
+                    sc = hit;
+                }
+            }
             let (min_sc, steps) = crate::shrink::shrink(prop, &sc, &o);
             let trace = crate::shrink::trace_of(prop, &min_sc);
             let path = write_replay(prop, &min_sc, &o, detail, &trace);
